@@ -300,6 +300,8 @@ def finish(ctx, module, write_evidence=True):
             print(f"  key={v['key']} what={v['what']}")
         for k, n in ctx.violation_counts.items():
             print(f"  total witnesses for {k}: {n}")
+        if ctx.errors:
+            print(f"  (also {len(ctx.errors)} harness errors, first: {ctx.errors[0][-300:]})")
         code = 1
     elif ctx.errors:
         for e in ctx.errors[:3]:
